@@ -15,7 +15,7 @@ if '-j' in args:
     i = args.index('-j'); J = int(args[i + 1]); del args[i:i + 2]
 claimed = {c['property_id'] for c in json.load(open(V + '/MANIFEST.json'))['checks']}
 ids = args or sorted(d for d in os.listdir(V + '/seeded') if os.path.isdir(V + '/seeded/' + d))
-resf = V + '/seeded/RESULTS.json'
+resf = os.environ.get('XV_SWEEP_RESULTS') or V + '/seeded/RESULTS.json'
 res = json.load(open(resf)) if os.path.exists(resf) else {}
 
 
